@@ -49,6 +49,10 @@ type stagedTxn struct {
 	Defer bool
 	// Tail: further operations a deferred transaction performs in its own goroutine before it ends
 	Tail []txOp
+	// Pad: after this staged transaction, so many bystander update transactions begin and are discarded at once
+	// (they read and write nothing and are not part of the history): whatever the engine recycles per transaction
+	// - buffers, maps, slots of a free list - has been handed out again that many times
+	Pad int
 }
 
 // scenario shorthand: "rx" read x, "wy" write y, "dx" delete x, "Q" quiesce. The second key of the transaction
@@ -174,6 +178,9 @@ func txnScenario(sc txnScen, obs *txnObs) vsched.Scenario {
 					deferred = append(deferred, l)
 				} else {
 					l.finish()
+				}
+				for i := 0; i < st.Pad; i++ {
+					db.Begin(true).Discard()
 				}
 			}
 			vsched.Thaw()
